@@ -152,7 +152,7 @@ PROPS["C09"] = dict(
     level="exploration",
     engine="E1",
     parts=[dict(bin="e1_rcl")],
-    rule="case = (list of strings, block size k); ALL sequences of length <= N over the short alphabet {\"\", a, ab, abc, abd, b, e-acute, e-acute a, U+10FFFF}; all sequences of length <= 3 containing at least one of a^127, a^128, a^129 b (rear lengths crossing 127/128); sequences of length <= 2 (thorough 3) containing a^16511 or a^16512 c (crossing 16511/16512); the rear-length family [x^r, y] for EVERY r <= 1500 (thorough 40 000) and offsets with pairwise different bytes inside the 2-, 3- and 4-byte classes of the variable-byte code (thorough: a stride through the 3- and 4-byte classes and the 4/5-byte boundary, 270 MB strings); sorted word lists of 150 (thorough 600) strings with shared prefixes for k up to 64; sorted, unsorted and duplicate-bearing lists all occur; non-trivial = at least 2 strings",
+    rule="case = (list of strings, block size k); ALL sequences of length <= N over the short alphabet {\"\", a, ab, abc, abd, b, e-acute, e-acute a, U+10FFFF}; ALL sequences of length <= 4 (thorough 5) over 12 strings of multi-byte characters sharing their leading bytes (e-acute/e-grave, U+4E00/U+4E01, U+1F600/U+1F601, ...); all sequences of length <= 3 containing at least one of a^127, a^128, a^129 b (rear lengths crossing 127/128); sequences of length <= 2 (thorough 3) containing a^16511 or a^16512 c (crossing 16511/16512); the rear-length family [x^r, y] for EVERY r <= 1500 (thorough 40 000) and offsets with pairwise different bytes inside the 2-, 3- and 4-byte classes of the variable-byte code (thorough: a stride through the 3- and 4-byte classes and the 4/5-byte boundary, 270 MB strings); sorted word lists of 150 (thorough 600) strings with shared prefixes for k up to 64; sorted, unsorted and duplicate-bearing lists all occur; non-trivial = at least 2 strings",
     alphabet="k in {1,2,3,4,5} (sorted word lists also 8,16,64); probes: every alphabet string, proper prefixes/extensions, strings sorting before/between/after",
     bound={"quick": "N=6", "thorough": "N=7; rear lengths crossing 2 113 664 (third code boundary) with 2 MB strings"},
     oracle="Vec<String>: len, get(i), get_in_place(i) all i; iter/lend/into_lender/into_iter and iter_from(j)/lend_from(j)/into_iter_from(j) for every j in 0..=n with exact remaining length before every next; index_of(s) returns an index holding s iff s was pushed, contains agrees; get(n) panics",
